@@ -182,8 +182,37 @@ func c06HandoffAs(c *cx, id string) {
 	for _, ce := range g.EdgesMatching("selectarm(send *.c)") {
 		n++
 		src := eng.Point{B: ce.E.B, I: len(g.Blocks[ce.E.B].Nodes)}
-		okd, why := g.DominatedAny(src, []string{"or(and(commaok(p0.sentStanzas[*]) & eq(*.Name,*.stanzaName)) | eq(*))"})
+		// (until F132 the condition was `ok && exact || localOnly`; the rule
+		// demanded that shape. It demands the two facts now.)
+		okd, why := g.DominatedAny(src, []string{"commaok(p0.sentStanzas[*])"})
+		var nameFacts []string
+		if okd {
+			nameFacts = g.DominatingAtoms(src, "*.stanzaName*")
+			if len(nameFacts) == 0 {
+				okd, why = false, "no dominating comparison with the request's stanza name"
+			}
+		}
 		c.r.Check(id, f, "hand-off guarded by the table hit and the stanza name", "G: a reply is handed to a waiter only if one is registered under its id and the element name matches the request's", f.Pos(), okd, why)
+		// F132: a request sent under an unqualified name ({"" iq}) is matched
+		// by local name - but only against an element of a stanza namespace.
+		// Every way the name test can hold is the exact name, or the local
+		// name together with a test of the element's namespace.
+		for _, nf := range nameFacts {
+			djs := []string{nf}
+			if strings.HasPrefix(nf, "or(") {
+				djs = splitTop(nf[3:len(nf)-1], " | ")
+			}
+			bad := ""
+			for _, dj := range djs {
+				switch {
+				case eng.Glob("eq(*.Name,*.stanzaName)", dj) || eng.Glob("eq(*.stanzaName,*.Name)", dj):
+				case strings.HasPrefix(dj, "and(") && strings.Contains(dj, ".stanzaName") && strings.Contains(dj, ".Name.Space,"):
+				default:
+					bad = dj
+				}
+			}
+			c.r.Check(id, f, "stanza name test of the hand-off", "G: the name matches exactly, or by local name for an element of a stanza namespace", f.Pos(), bad == "", "the hand-off is also taken when "+bad+": an element that is merely called iq in a foreign namespace is delivered as the response and never reaches the handler")
+		}
 		okt, why2 := g.DominatedAny(src, []string{"or(eq(xmpp.getIDTyp(*)#3,\"error\") | eq(xmpp.getIDTyp(*)#3,\"result\"))"})
 		c.r.Check(id, f, "hand-off only for replies", "G: only stanzas of type result or error are correlated", f.Pos(), okt, why2)
 	}
